@@ -319,3 +319,41 @@ Proof.
   - intros _. exists k, v. split; [left; reflexivity|exact E].
   - intros H. destruct (IH H) as (k' & v' & Hin & Hv). exists k', v'. split; [right; exact Hin|exact Hv].
 Qed.
+
+(* ---- component-list prefixes ------------------------------------------------------ *)
+Fixpoint strip (a cs : list str) : option (list str) :=
+  match a, cs with
+  | [], _ => Some cs
+  | x :: a', y :: cs' => if str_eqb x y then strip a' cs' else None
+  | _ :: _, [] => None
+  end.
+
+Lemma strip_some a : forall cs r, strip a cs = Some r <-> cs = a ++ r.
+Proof.
+  induction a as [|x a IH]; intros cs r; cbn [strip app].
+  - split; [intros [= ->]; reflexivity|intros ->; reflexivity].
+  - destruct cs as [|y cs]; [split; [discriminate|intros E; discriminate]|].
+    destruct (str_eqb_spec x y) as [->|Hne].
+    + rewrite IH. split; [intros ->; reflexivity|intros E; inversion E; reflexivity].
+    + split; [discriminate|intros E; inversion E; congruence].
+Qed.
+
+Lemma strip_app a r : strip a (a ++ r) = Some r.
+Proof. apply strip_some. reflexivity. Qed.
+
+Lemma strip_none a cs : strip a cs = None <-> forall r, cs <> a ++ r.
+Proof.
+  split.
+  - intros H r E. apply strip_some in E. congruence.
+  - intros H. destruct (strip a cs) as [r|] eqn:E; [|reflexivity]. apply strip_some in E. exfalso. exact (H r E).
+Qed.
+
+(* [cs ++ [c] = a ++ r]: either r is empty, or r ends with c *)
+Lemma snoc_eq_app (cs a r : list str) (c : str) : cs ++ [c] = a ++ r ->
+  (r = [] /\ a = cs ++ [c]) \/ (exists r', r = r' ++ [c] /\ cs = a ++ r').
+Proof.
+  intros E. destruct r as [|x r] using rev_ind.
+  - left. rewrite app_nil_r in E. auto.
+  - right. clear IHr. rewrite app_assoc in E. apply app_inj_tail in E. destruct E as [E1 E2]. subst.
+    exists r. auto.
+Qed.
